@@ -36,6 +36,13 @@ STAR = {
                      LeafOpts='{"none","edict"}', SideOpts='{"none","shared","mixobj","mixdict","mixlist"}',
                      Alpha='"small"', Alpha3='"none"', Stars='"only"'),
 }
+# '**' paths over targets with twin branches (equal, distinct containers at several depths)
+DEEP = {
+    'quick': dict(Mutant='"none"', MaxSpine='3', LevelClasses='{"dict"}', LeafOpts='{"none","edict"}',
+                  SideOpts='{"twin"}', Alpha='"small"', Alpha3='"none"', Stars='"deep"'),
+    'thorough': dict(Mutant='"none"', MaxSpine='3', LevelClasses='{"dict","list"}', LeafOpts='{"none","edict"}',
+                     SideOpts='{"twin"}', Alpha='"small"', Alpha3='"none"', Stars='"deep"'),
+}
 THOROUGH_WIDE = dict(Mutant='"none"', MaxSpine='1', LevelClasses=_ALL,
                      LeafOpts='{"none","str","edict","elist","fset"}',
                      SideOpts='{"absent","none","shared","empty"}', Alpha='"full"', Alpha3='"small"', Stars='"no"')
@@ -43,24 +50,27 @@ MUTANT_UNIVERSE = dict(MaxSpine='1', LevelClasses='{"dict","list","obj"}', LeafO
                        SideOpts='{"absent","shared"}', Alpha='"small"', Alpha3='"p"', Stars='"no"')
 COVERAGE_UNIVERSE = dict(MaxSpine='1', LevelClasses='{"dict","list"}', LeafOpts='{"edict"}', SideOpts='{"absent"}',
                          Alpha='"small"', Alpha3='"p"', Stars='"also"')
-MUTANTS = {'catch_index_only': ('Outcome',), 'ignore_skips_delete': ('Outcome', 'DelFrame')}
+MUTANTS = {'catch_index_only': ('Outcome',), 'ignore_skips_delete': ('Outcome', 'DelFrame'),
+           'catch_typeerror': ('Outcome',)}
 NRANDOM = {'quick': 8000, 'thorough': 80000}
 
 ASSUMPTIONS = [
     'container classes dict / list / tuple / frozenset / set / attribute objects; OrderedDict is excluded '
     '(its instances accept arbitrary attributes, which the abstract heap does not model)',
     '"missing" is read from the statement: a key absent from a mapping, an integer index out of range of a list, '
-    'an attribute absent from the value addressed attribute-style; a final segment that cannot apply at all (index '
-    'of the wrong type, item deletion on a non-container or an immutable tuple) or a deletion fault must leave the '
-    'target unchanged and raise unless ignore_missing is set (then either outcome is accepted, target unchanged)',
+    'an attribute absent from the value addressed attribute-style.  A final T[..] / T.attr step whose del / delattr '
+    'raises anything else (item deletion on a tuple / str / None, wrong index type, raising __delitem__ / __delattr__) '
+    'must let that error propagate as itself, ignore_missing or not, target unchanged.  For a final path segment the '
+    'documentation reports handler failures as PathDeleteError and does not say whether ignore_missing covers them: '
+    'then an error is required unless ignore_missing is set (either outcome accepted), target unchanged',
     'the read-only property "r" is only addressed as the final segment; attribute names are not methods of builtins',
     'faults are injected with subclasses (raising __delitem__/__delattr__, read-only property); at most one faulty '
     'cell per case',
     'registries / short-lived classes: as for C11 (path-segment deletions also through a Glommer with its own '
     'tagged handlers; every 12th case on classes made with type() after other classes were collected)',
-    'wildcards: only * (not **), only among the parent segments; matches are deleted in order with Python semantics '
-    '(an earlier deletion is visible to a later match); a wildcard case in which some match is neither present nor '
-    'missing (fault / inapplicable) is not judged; sets are never enumerated by a wildcard (iteration order)',
+    'wildcards * and ** among the parent segments; matches are deleted in order with Python semantics (an earlier '
+    'deletion is visible to a later match); a wildcard case in which some match fails through a path-segment handler '
+    'in a way that is not "missing" is not judged; sets are only enumerated when their order is determined',
     'TLC, the Json community module and the codec are trusted',
 ]
 
@@ -82,7 +92,8 @@ RULE = ('TLC enumerates every (target spine, path, ignore_missing, deletion faul
 
 
 def main(tier, seed):
-    universes = [(tier, TIERS[tier]), (tier + '-star', STAR[tier], tier == 'thorough')]
+    universes = [(tier, TIERS[tier]), (tier + '-star', STAR[tier], tier == 'thorough'),
+                 (tier + '-deep', DEEP[tier], tier == 'thorough')]
     if tier == 'thorough':
         universes.append(('thorough-wide', THOROUGH_WIDE))
     return DRIVER.main(tier, seed, universes, NRANDOM[tier], ASSUMPTIONS, RULE)
